@@ -201,6 +201,20 @@ struct WrapLBFGS: public WrapT<LSProbe<LBFGS<RealVector> > >{
 	}
 };
 
+// trust-region Newton: flat state  n, point, value, gradient, delta, minImprovementRatio, hessian (row-major)
+struct TRNProbe2: public TRNProbe{
+	std::string state() const{
+		std::ostringstream os;
+		os << " st=" << m_best.point.size() << hexVec(m_best.point) << "," << hexd(m_best.value) << hexVec(m_derivatives.gradient)
+		   << "," << hexd(m_delta) << "," << hexd(m_minImprovementRatio);
+		for(std::size_t i = 0; i != m_derivatives.hessian.size1(); ++i){ RealVector r = row(m_derivatives.hessian, i); os << hexVec(r); }
+		return os.str();
+	}
+};
+struct WrapTRN: public WrapT<TRNProbe2>{
+	explicit WrapTRN(bool poison): WrapT<TRNProbe2>(poison){}
+	std::string extra(bool){ return p->state(); }
+};
 static LineSearchType lsType(double v){
 	return v == 0 ? LineSearchType::Dlinmin : (v == 1 ? LineSearchType::WolfeCubic : LineSearchType::Backtracking);
 }
@@ -236,7 +250,7 @@ static Wrap* make(Config const& c, bool poison, bool configure){
 		if(configure){ configLS(w->p->lineSearch(), c, 2); w->p->setHistCount((unsigned)c.p[1]); }
 		return w;
 	}
-	if(c.kind == "trn") return new WrapT<TRNProbe>(poison);
+	if(c.kind == "trn") return new WrapTRN(poison);
 	throw std::runtime_error("unknown optimizer " + c.kind);
 }
 static void doInit(Wrap& w, Config const& c, Obj const& f, RealVector const& x0){
@@ -244,7 +258,7 @@ static void doInit(Wrap& w, Config const& c, Obj const& f, RealVector const& x0)
 	else if(c.kind == "trn"){
 		// configuration axes of TrustRegionNewton: initial trust-region radius (argument of init) and
 		// minImprovementRatio() (reset by init, so it is set after it)
-		TRNProbe* t = static_cast<WrapT<TRNProbe>&>(w).p;
+		TRNProbe* t = static_cast<WrapTRN&>(w).p;
 		t->TrustRegionNewton::init(f, x0, c.p.size() >= 1 ? c.p[0] : 0.1);
 		if(c.p.size() >= 2) t->minImprovementRatio() = c.p[1];
 	}
@@ -272,6 +286,31 @@ static bool cauchyTouchesBound(LSProbe<LBFGS<RealVector> >& o, RealVector const&
 	for(std::size_t k = 0; k != n; ++k)
 		if(!blocked[k] && (x(k) + cau(k) == l(k) || x(k) + cau(k) == u(k))) return true;
 	return false;
+}
+// fills the part of the stack the next call will use with the double -1e300, so that a read of an uninitialised local
+// (e.g. the bracket arrays of wolfecubic when its bracketing loop runs out of iterations) has a visible effect
+// instead of depending on what happens to be there
+static void __attribute__((noinline)) poisonStack(){
+	volatile double a[8192];
+	for(std::size_t i = 0; i != 8192; ++i) a[i] = -1e300;
+	asm volatile("" : : "r"(a) : "memory");
+}
+// diagnosis for finding F-C10-16: would the bracketing loop of wolfecubic run through all its 25 tenfold expansions
+// without ever leaving through a `break` (every trial point decreases sufficiently, has a negative slope and fails
+// the curvature test)?  Then the C++ reads its never-assigned bracket arrays.  Re-computed here from the objective.
+static bool wolfeBracketExhausts(Obj const& f, RealVector const& p, RealVector const& d, double value, RealVector const& g, double t){
+	double gtd = 0; for(std::size_t k = 0; k != p.size(); ++k) gtd += g(k) * d(k);
+	double fPrev = value;
+	for(unsigned iter = 1; iter <= 25; ++iter){
+		RealVector x(p.size()), gn; for(std::size_t k = 0; k != p.size(); ++k) x(k) = p(k) + t * d(k);
+		double fNew = f.both(x, &gn);
+		double gtdNew = 0; for(std::size_t k = 0; k != p.size(); ++k) gtdNew += gn(k) * d(k);
+		if(fNew > value + 1e-4 * t * gtd || (iter > 1 && fNew >= fPrev)) return false;
+		if(std::fabs(gtdNew) <= -0.9 * gtd) return false;
+		if(gtdNew >= 0) return false;
+		fPrev = fNew; t *= 10;
+	}
+	return true;
 }
 static double g_lastDecrease = 0;   // value decrease of the most recent `step` (for the convergence diagnosis)
 
@@ -330,6 +369,7 @@ int main(){
 					// both instances are stepped whatever happens, so that they stay in lockstep after an exception
 					std::exception_ptr curErr;
 					std::feclearexcept(FE_ALL_EXCEPT);
+					poisonStack();
 					try{ cur->o().step(*f); }catch(...){ curErr = std::current_exception(); }
 					ex = std::fetestexcept(FE_INEXACT) ? 0 : 1;
 					try{ twin->o().step(*f); }catch(...){}
@@ -371,16 +411,22 @@ int main(){
 				double gtd = 0; for(std::size_t k = 0; k != n; ++k) gtd += g(k) * d(k);
 				RealVector p0 = p, g0 = g; double v0 = v;
 				LineSearch<RealVector> ls; ls.lineSearchType() = lsType(type); ls.init(*f);
+				poisonStack();
 				ls(p, v, d, g, t0);
 				out << "ls pt=" << showVec(p) << " val=" << vh::exactDouble(v) << " st=" << n << hexVec(p) << "," << hexd(v) << hexVec(g);
 				bool finite = std::isfinite(v);
 				for(std::size_t k = 0; k != n; ++k) finite = finite && std::isfinite(p(k));
-				if(!finite) out << " !oracle ls-non-finite";
-				RealVector gre; double re = f->both(p, &gre);
-				if(finite && !sameBits(re, v)) out << " !oracle ls-value-not-f-of-point";
-				if(finite && !sameVec(gre, g)) out << " !oracle ls-gradient-not-grad-of-point";
-				if(finite && gtd <= 0 && !(v <= v0)) out << " !oracle ls-increased";
-				if(sameVec(p, p0) && (!sameBits(v, v0) || !sameVec(g, g0))) out << " !oracle ls-unchanged-point-changed-state";
+				RealVector gre; double re = finite ? f->both(p, &gre) : 0.0;
+				std::ostringstream orc;
+				if(!finite) orc << " !oracle ls-non-finite";
+				if(finite && !sameBits(re, v)) orc << " !oracle ls-value-not-f-of-point";
+				if(finite && !sameVec(gre, g)) orc << " !oracle ls-gradient-not-grad-of-point";
+				if(finite && gtd <= 0 && !(v <= v0)) orc << " !oracle ls-increased";
+				if(sameVec(p, p0) && (!sameBits(v, v0) || !sameVec(g, g0))) orc << " !oracle ls-unchanged-point-changed-state";
+				// known finding F-C10-16: any of the above in a call whose bracketing loop provably never assigns the bracket
+				if(!orc.str().empty() && type == 1 && wolfeBracketExhausts(*f, p0, d, v0, g0, t0))
+					out << " !oracle ls-wolfecubic-uninitialised-bracket";
+				else out << orc.str();
 			}else if(t[0] == "converged"){
 				// numerical convergence oracle (strictly convex quadratics): the KKT residual of the (box-constrained) problem,
 				//   r_i = x_i - clamp(x_i - g_i, l_i, u_i)      (= g_i without a box),
